@@ -168,6 +168,26 @@ def run_toc(case):
                 snaps.append(rounds)
             cf.connected.add_callback(on_connected)
             rounds = 2 if (case['cache'] or case.get('second')) else 1
+            if case.get('cut') is not None:
+                # a first connection that the application ends at the k-th packet on the parameter port (inside the table download, between
+                # the download and the extended types, or after): whatever it left in the cache must not spoil the connections that follow
+                seen_pk = [0]
+                fired = []
+
+                def cutter(pk_):
+                    seen_pk[0] += 1
+                    if not fired and seen_pk[0] > case['cut']:
+                        fired.append(1)
+                        cf.close_link()
+                cf.add_port_callback(2, cutter)
+                cf.open_link('sim://1')
+                s.sleep(5.0)
+                cf.remove_port_callback(2, cutter)
+                if not fired:
+                    cf.close_link()
+                else:
+                    out.feat('first-connection-cut-short')
+                s.sleep(3.0)
             from vlib.simcf import SimDevice
             for r in range(rounds):
                 if r == 1 and case.get('second'):
@@ -253,13 +273,25 @@ def toc_case(draw, big=False):
             'latedup': draw(st.one_of(st.just({}), st.just({}), st.dictionaries(st.integers(0, 12).map(str), st.sampled_from([0.0015, 0.0025, 0.0035, 0.0055, 0.0105]), max_size=3))),
             'notify': draw(st.one_of(st.just([]), st.lists(st.tuples(st.sampled_from([0.004, 0.008, 0.012, 0.016, 0.02, 0.03, 0.05, 0.1, 0.25]), st.integers(0, 20)),
                                                            max_size=4).map(lambda l: [list(x) for x in l]))),
+            'cut': draw(st.one_of(st.none(), st.none(), st.integers(0, 30))),
             'second': draw(st.one_of(st.none(), st.none(), st.fixed_dictionaries({'nlog': _size, 'nparam': _size, 'tshift': st.integers(0, 9),
                                                                                  'log_crc': _crc, 'param_crc': _crc,
                                                                                  'nlen': st.lists(st.integers(1, 22), min_size=1, max_size=4)})))}
+
+
+def cut_cases(tier):
+    """writable cache; the first connection is ended by the application at the k-th parameter-port packet for every k of the handshake, then
+    two full connections follow (the second one served from the cache)"""
+    for (nparam, extmod, tshift, v) in ((4, 1, 0, 10), (6, 2, 1, 10), (3, 1, 1, 4), (5, 5, 0, 3)):
+        for k in range(0, 2 * nparam + 6):
+            yield {'version': v, 'nlog': 2, 'nparam': nparam, 'glen': [3], 'nlen': [4], 'tshift': tshift, 'log_crc': 0x1000 + k, 'param_crc': 0x2000 + k,
+                   'needs_resending': k % 2 == 1, 'delays': [0.001], 'cache': True, 'schedule': {'prefix': [], 'seed': k, 'rate': 0.0}, 'extmod': extmod,
+                   'burst': [], 'latedup': {}, 'notify': [], 'second': None, 'cut': k}
 
 
 def subchecks(tier):
     return [
         Sub('tables', run_toc, strategy=toc_case(), examples={'quick': 500, 'thorough': 20000}),
         Sub('big-tables', run_toc, strategy=toc_case(big=True), examples={'quick': 12, 'thorough': 400}),
+        Sub('cut-then-cached', run_toc, cases=cut_cases, distinct_by_construction=True),
     ]
